@@ -411,11 +411,42 @@ Definition judge_star (c o : sexp) : verdict :=
   | _, _, _ => VBad "undecodable case"
   end.
 
+(** * a tree with a history: parsed from Newick (parser ids), edited through the public API, dumped
+    just before the reconstruction ("pre" in the observation), which is the input judged here.
+    case: ((kind hist) (newick text) (ops (...)) (states ...) (algo a) (sameroot T|F))
+    [sameroot]: the operations only re-root, so the number of steps must be the one of the tree
+    as parsed ("steps0"). *)
+Definition judge_hist (c o : sexp) : verdict :=
+  match (x <- get "states" c ;; dec_pairs x), (x <- get_string "algo" c ;; dec_algo x), get_tree "pre" o with
+  | Some m, Some a, Some pre =>
+    match get_strings "preaudit" o with
+    | Some [] =>
+      match judge_acr_run false [] pre m a o with
+      | OBad msg => VBad msg
+      | OCorr msg => VCorr msg
+      | OOracle msg => VOracle msg
+      | OOk steps iserr =>
+        match get_bool "sameroot" c, (x <- get "steps0" o ;; dec_Z x) with
+        | Some true, Some z0 =>
+          if iserr then VOk false "hist:err"
+          else if Z.eqb z0 (Z.of_nat steps) then VOk (Nat.ltb 0 steps) ("hist:" ++ algo_name a ++ ":sameroot")
+          else VOracle ("steps " ++ string_of_nat steps ++ " after re-rooting through the API but "
+                        ++ string_of_Z z0 ++ " on the tree as parsed")
+        | _, _ => VOk (Nat.ltb 0 steps) ("hist:" ++ algo_name a ++ (if iserr then ":err" else ""))
+        end
+      end
+    | Some (p :: _) => VOk false "hist:edited-tree-not-well-formed"
+    | None => VBad "no preaudit"
+    end
+  | _, _, _ => VBad "undecodable case or observation"
+  end.
+
 Definition judge (c o : sexp) : verdict :=
   match get_string "kind" c with
   | Some k => if String.eqb k "acr" then judge_acr c o
               else if String.eqb k "asr" then judge_asr c o
               else if String.eqb k "star" then judge_star c o
+              else if String.eqb k "hist" then judge_hist c o
               else VBad "unknown kind"
   | None => VBad "no kind"
   end.
